@@ -41,6 +41,8 @@ func main() {
 	switch fam {
 	case "coll":
 		err = famColl(w, *seed, *n, *labels, *mode, *replay)
+	case "sync":
+		err = famSync(w, *seed, *n)
 	case "iter":
 		err = famIter(w, *seed, *n)
 	case "fault":
